@@ -107,8 +107,9 @@ Proof. exact (optional_only_ype_kw lit re_search nstr vstr lit_total re_total). 
    collector-free segments (keyword segments included), every operand is again
    such a path, and every operand, evaluated on the document the way
    _get_nodes_by_collector evaluates it, yields only NodeCoords that unwrap to
-   scalars.  Under the guard: no crash, no fuel exhaustion, and -- for
-   subtraction too -- no `del` on the document. *)
+   scalars.  Under the guard: no crash and no fuel exhaustion.  (That a read
+   never writes to the document holds for EVERY path since the repair of F16:
+   C09_required_pure / C09_exists_pure.) *)
 Theorem C15_required_only_ype_partial :
   forall (p : ppath) (d : node),
     kc_fragment lit re_search nstr vstr p d = true ->
